@@ -38,6 +38,10 @@ def delitem(x, i):
     del x[i]
 def delslice(x, i, j):
     del x[i:j]
+def setslice3(x, i, j, k, v):
+    x[i:j:k] = v
+def delslice3(x, i, j, k):
+    del x[i:j:k]
 def grow(x):
     n = 0
     for e in x:
@@ -71,7 +75,13 @@ var c17Names = []string{"a", "b", "c"}
 func (c *c17Gen) name() string { return c17Names[c.g.N(3)] }
 func (c *c17Gen) ival() string { return fmt.Sprint(c.g.Ints(0, 1, 2, 3, 5, -1, 7)) }
 func (c *c17Gen) idx() string  { return fmt.Sprint(c.g.Ints(0, 1, 2, -1, -2, 3, 5, -7)) }
-func (c *c17Gen) key() string  { return c.g.Str("'k'", "'m'", "'n'", "''", "'k2'") }
+func (c *c17Gen) oidx() string {
+	return c.g.Str("None", "None", "0", "1", "2", "-1", "-2", "3", "5", "-7")
+}
+func (c *c17Gen) stepv() string {
+	return c.g.Str("None", "1", "2", "3", "-1", "-2", "-3", "-5", "0")
+}
+func (c *c17Gen) key() string { return c.g.Str("'k'", "'m'", "'n'", "''", "'k2'") }
 
 func (c *c17Gen) snap() string {
 	switch c.kind {
@@ -91,7 +101,17 @@ func (c *c17Gen) step() string {
 	rec := func(expr string) string { return "_res.append(t(lambda: " + expr + "))\n" }
 	switch c.kind {
 	case "list":
-		switch g.Weighted(4, 2, 2, 2, 2, 2, 2, 2, 2, 2, 2, 2, 2, 1, 1, 1, 1, 1) {
+		switch g.Weighted(4, 2, 2, 2, 2, 2, 2, 2, 2, 2, 2, 2, 2, 1, 1, 1, 1, 1, 2, 2, 1) {
+		case 18:
+			c.use("delslice-step")
+			return rec("delslice3(" + x + ", " + c.oidx() + ", " + c.oidx() + ", " + c.stepv() + ")")
+		case 19:
+			c.use("setslice-step")
+			rhs := g.Str("[]", "[8]", "[8, 9]", "[8, 9, 6]", y, x, x+"[::-1]", "(6, 4)")
+			return rec("setslice3(" + x + ", " + c.oidx() + ", " + c.oidx() + ", " + c.stepv() + ", " + rhs + ")")
+		case 20:
+			c.use("getslice-step")
+			return rec(x + "[" + c.oidx() + ":" + c.oidx() + ":" + c.stepv() + "]")
 		case 0:
 			c.use("append")
 			return rec(x + ".append(" + c.ival() + ")")
@@ -199,7 +219,10 @@ func (c *c17Gen) step() string {
 			return rec("sorted([k + str(v) for k, v in " + x + ".items()])")
 		}
 	default: // set
-		switch g.Weighted(4, 3, 3, 2, 2, 2, 2) {
+		switch g.Weighted(4, 3, 3, 2, 2, 2, 2, 3) {
+		case 7:
+			c.use("inplace-binop")
+			return x + " " + g.Str("|=", "&=", "-=", "^=") + " " + g.Str(y, y, x, "{"+c.selem()+"}", "{"+c.selem()+", "+c.selem()+"}") + "\n"
 		case 0:
 			c.use("add")
 			return rec(x + ".add(" + c.selem() + ")")
@@ -248,8 +271,8 @@ func TestC17(t *testing.T) {
 	r := StartRun(t, "C17")
 	defer r.Finish()
 	r.Extra("rule", "rapid-drawn histories (<=12 steps) over three names bound to lists, string-keyed dicts or sets with generated aliasing (b = a) and copying (slice, constructor, + [], * 1): "+
-		"append/extend/sort (key, reverse)/item and slice assignment and deletion/+=/*=/membership/len/==/iteration incl. mutation during iteration and during sort and the container as its own "+
-		"operand; dict get/set/del/in/len/==/keys/values/items/get; set add/|/&/-/^/in/len/==. After every step all three names are snapshotted (order-normalised) with their identity relations. "+
+		"append/extend/sort (key, reverse)/item, slice and extended-slice assignment, deletion and reads/+=/*=/membership/len/==/iteration incl. mutation during iteration and during sort and the container as its own "+
+		"operand; dict get/set/del/in/len/==/keys/values/items/get; set add/|/&/-/^ and their in-place forms/in/len/==. After every step all three names are snapshotted (order-normalised) with their identity relations. "+
 		"Oracle: CPython running the same history. Non-trivial: an alias or copy exists when a later mutation happens; distinct by program text.")
 	r.Extra("assumptions", []string{"CPython 3.6 container semantics equal 3.4's; dict/set order normalised; dict mutation during iteration fenced (RuntimeError timing is implementation-defined)"})
 	r.ReplayKnown()
